@@ -9,27 +9,27 @@
 (***************************************************************************)
 EXTENDS Suffix, TLC, Json
 
-CONSTANTS SegsA, SegsB, Fam
+CONSTANTS SegsA, SegsB, Fam, Mode      \* Mode: "main" | "pct" (small vocabularies of percent-encoded spellings)
 
 RECURSIVE SeqsUpTo(_, _)
 SeqsUpTo(V, n) == IF n = 0 THEN {<<>>}
                   ELSE LET S == SeqsUpTo(V, n - 1) IN S \cup {Append(s, v) : s \in {x \in S : Len(x) = n - 1}, v \in V}
 
 sS == <<115>>  tT == <<116>>  hH == <<104>>  gG == <<103>>  qQ == <<113>>  fF == <<102>>
-VocA == {<<97>>, <<98>>, <<>>, DOT, DOTDOT, <<99, 58, 100>>}
-VocB == {<<97>>, <<98>>, <<>>, DOTDOT}
+VocA == IF Mode = "pct" THEN {<<97>>, <<37, 50, 102>>, <<37, 52, 49, 66>>, DOTDOT} ELSE {<<97>>, <<98>>, <<>>, DOT, DOTDOT, <<99, 58, 100>>}
+VocB == IF Mode = "pct" THEN {<<97>>, <<37, 50, 70>>, <<65, 37, 52, 50>>} ELSE {<<97>>, <<98>>, <<>>, DOTDOT}
 
 Good(P) == LET w == Recompose(P) IN InLang(FullTy(Fam), w) /\ Parts(w) = P
 
 UrisA == TLCEval({Recompose(P) : P \in {X \in {MkParts(s, a, Join(ab, p), qf[1], qf[2]) :
-                s \in {sS, tT}, a \in {NULL, hH}, ab \in BOOLEAN, p \in SeqsUpTo(VocA, SegsA),
+                s \in {sS, tT}, a \in (IF Mode = "pct" THEN {hH, <<37, 54, 56>>} ELSE {NULL, hH}), ab \in BOOLEAN, p \in SeqsUpTo(VocA, SegsA),
                 qf \in {<<NULL, NULL>>, <<qQ, fF>>, <<NULL, fF>>, <<qQ, NULL>>}} : Good(X)}})
 UrisB == TLCEval({Recompose(P) : P \in {X \in {MkParts(sS, a, Join(ab, p), q, NULL) :
-                a \in {NULL, hH, gG}, ab \in BOOLEAN, p \in SeqsUpTo(VocB, SegsB), q \in {NULL, qQ}} : Good(X)}})
+                a \in (IF Mode = "pct" THEN {hH, <<37, 54, 56>>} ELSE {NULL, hH, gG}), ab \in BOOLEAN, p \in SeqsUpTo(VocB, SegsB), q \in {NULL, qQ}} : Good(X)}})
 
 \* paths for Path::suffix
-PathsV == TLCEval({Join(ab, p) : ab \in BOOLEAN, p \in SeqsUpTo({<<97>>, <<98>>, <<>>, DOT, DOTDOT, <<37, 54, 49>>}, SegsA)})
-PathsP == TLCEval({Join(ab, p) : ab \in BOOLEAN, p \in SeqsUpTo({<<97>>, <<>>, DOTDOT, <<37, 54, 49>>}, SegsB)})
+PathsV == TLCEval({Join(ab, p) : ab \in BOOLEAN, p \in SeqsUpTo(IF Mode = "pct" THEN {<<97>>, <<37, 50, 102>>, <<37, 52, 49, 66>>, DOTDOT} ELSE {<<97>>, <<98>>, <<>>, DOT, DOTDOT, <<37, 54, 49>>}, SegsA)})
+PathsP == TLCEval({Join(ab, p) : ab \in BOOLEAN, p \in SeqsUpTo(IF Mode = "pct" THEN {<<97>>, <<37, 50, 70>>, <<65, 37, 52, 50>>} ELSE {<<97>>, <<>>, DOTDOT, <<37, 54, 49>>}, SegsB)})
 
 VARIABLES a, b, mode
 vars == <<a, b, mode>>
